@@ -26,11 +26,24 @@ include!(concat!(env!("GEN_DIR"), "/dispatch.rs"));
 
 struct Counting;
 static LIVE: AtomicIsize = AtomicIsize::new(0);
+static PEAK: AtomicIsize = AtomicIsize::new(0);
+static BIGGEST: AtomicIsize = AtomicIsize::new(0);
+fn note(n: isize, req: usize) { PEAK.fetch_max(n, Ordering::Relaxed); BIGGEST.fetch_max(req as isize, Ordering::Relaxed); }
 unsafe impl GlobalAlloc for Counting {
-    unsafe fn alloc(&self, l: Layout) -> *mut u8 { LIVE.fetch_add(l.size() as isize, Ordering::Relaxed); System.alloc(l) }
+    unsafe fn alloc(&self, l: Layout) -> *mut u8 { let n = LIVE.fetch_add(l.size() as isize, Ordering::Relaxed) + l.size() as isize; note(n, l.size()); System.alloc(l) }
     unsafe fn dealloc(&self, p: *mut u8, l: Layout) { LIVE.fetch_sub(l.size() as isize, Ordering::Relaxed); System.dealloc(p, l) }
-    unsafe fn realloc(&self, p: *mut u8, l: Layout, n: usize) -> *mut u8 { LIVE.fetch_add(n as isize - l.size() as isize, Ordering::Relaxed); System.realloc(p, l, n) }
+    unsafe fn realloc(&self, p: *mut u8, l: Layout, n: usize) -> *mut u8 { let m = LIVE.fetch_add(n as isize - l.size() as isize, Ordering::Relaxed) + n as isize - l.size() as isize; note(m, n); System.realloc(p, l, n) }
 }
+/// run `f`; returns its result, the peak of live bytes above the level at entry, the largest single request (C09 allocation oracle)
+fn measured<R>(f: impl FnOnce() -> R) -> (R, usize, usize) {
+    let start = LIVE.load(Ordering::Relaxed);
+    PEAK.store(start, Ordering::Relaxed);
+    BIGGEST.store(0, Ordering::Relaxed);
+    let r = f();
+    (r, (PEAK.load(Ordering::Relaxed) - start).max(0) as usize, BIGGEST.load(Ordering::Relaxed) as usize)
+}
+/// allocation bound of the C09 oracle (same as for the hand-written readers): live bytes above the level at entry
+fn alloc_bound(input_len: usize) -> usize { 512 * input_len + (256 << 10) }
 #[global_allocator]
 static A: Counting = Counting;
 
@@ -95,15 +108,18 @@ fn canon_of<T: Message>(v: &T) -> String {
     }
 }
 
-struct Recode<'a> { proto: Proto, input: &'a [u8], o: &'a mut Oracle, out: String }
+struct Recode<'a> { proto: Proto, input: &'a [u8], o: &'a mut Oracle, out: String, keep: bool, rt: bool }
 impl<'a> Action for Recode<'a> {
     fn run<T: Message + Debug + 'static>(&mut self, _d: Option<fn() -> T>) {
-        let (r, rem) = decode_with::<T>(self.proto, self.input);
+        let ((r, rem), peak, biggest) = measured(|| decode_with::<T>(self.proto, self.input));
+        if peak > alloc_bound(self.input.len()) { self.o.fail("C09", format!("emitted decoder under {}: peak allocation {} bytes (largest request {}) on {} input bytes", self.proto.name(), peak, biggest, self.input.len())); }
         self.out = match r {
             Err(e) => err_class(&e).to_string(),
             Ok(v) => {
                 // size() == bytes written, under every protocol (C04 for emitted types)
-                for p in [Proto::Bin, Proto::Le, Proto::Cmp, Proto::UBin] {
+                // retained unknown fields are raw binary-protocol bytes: only the binary family applies with retention
+                let all: &[Proto] = if self.keep { &[Proto::Bin, Proto::UBin] } else { &[Proto::Bin, Proto::Le, Proto::Cmp, Proto::UBin] };
+                for &p in all {
                     match encode_with(p, &v) {
                         Ok((b, size)) => if b.len() != size { self.o.fail("C04", format!("emitted size() {} != {} bytes written under {}", size, b.len(), p.name())); },
                         Err(e) => self.o.fail("C02,C11", format!("emitted encode failed under {}: {}", p.name(), e)),
@@ -115,11 +131,14 @@ impl<'a> Action for Recode<'a> {
                         let r = read_script(Proto::Bin, &b, &[ReadStep::Read(TT::Struct)]);
                         // a newtype / enum is not a struct on the wire: fall back to raw bytes
                         let shown = if r.err.is_none() && r.rem == 0 { Val::of_sexp(&Sexp::parse_line(&r.items[0]).unwrap()[0]).map(|v| canon(&v).sexp()).unwrap_or_default() } else { format!("raw:{}", hex(&b)) };
-                        // the same value must round trip through the other protocols (C02)
-                        for p in [Proto::Le, Proto::Cmp, Proto::UBin] {
+                        // the same value must round trip through the other protocols (C02).  The reference is the value's own
+                        // binary round trip, not the value: an absent optional field with an IDL default legitimately comes back filled.
+                        if !self.rt { self.out = format!("ok {} rem={}", shown, rem); return; }
+                        let reference = match decode_with::<T>(Proto::Bin, &b) { (Ok(vb), 0) => canon_of(&vb), _ => { self.o.fail("C02", "binary round trip of a decoded value failed or left bytes".into()); shown.clone() } };
+                        for &p in all.iter().filter(|p| **p != Proto::Bin) {
                             if let Ok((b2, _)) = encode_with(p, &v) {
                                 let (r2, rem2) = decode_with::<T>(p, &b2);
-                                match r2 { Ok(v2) => { if rem2 != 0 || canon_of(&v2) != shown { self.o.fail("C02", format!("round trip under {} changed the value or left {} bytes", p.name(), rem2)); } }
+                                match r2 { Ok(v2) => { if rem2 != 0 || canon_of(&v2) != reference { self.o.fail("C02", format!("round trip under {} changed the value or left {} bytes", p.name(), rem2)); } }
                                            Err(e) => self.o.fail("C02", format!("round trip under {} failed: {}", p.name(), e)) }
                             }
                         }
@@ -144,16 +163,19 @@ impl Action for DefaultOf {
     }
 }
 
-struct Leak<'a> { proto: Proto, input: &'a [u8], out: String }
+struct Leak<'a> { proto: Proto, input: &'a [u8], out: String, leaks: Vec<usize>, accepted_prefix: Option<usize> }
 impl<'a> Action for Leak<'a> {
     fn run<T: Message + Debug + 'static>(&mut self, _d: Option<fn() -> T>) {
         // warm up once so that lazily initialised statics do not count
         { let _ = decode_with::<T>(self.proto, self.input); }
-        let before = LIVE.load(Ordering::Relaxed);
-        let failed;
-        { let (r, _) = decode_with::<T>(self.proto, self.input); failed = r.is_err(); drop(r); }
-        let after = LIVE.load(Ordering::Relaxed);
-        self.out = if failed { format!("err leaked={}", after - before) } else { format!("ok leaked={}", after - before) };
+        for cut in 0..self.input.len() {
+            let before = LIVE.load(Ordering::Relaxed);
+            let failed;
+            { let (r, _) = decode_with::<T>(self.proto, &self.input[..cut]); failed = r.is_err(); drop(r); }
+            let after = LIVE.load(Ordering::Relaxed);
+            if failed { if after != before { self.leaks.push(cut); } } else if self.accepted_prefix.is_none() { self.accepted_prefix = Some(cut); }
+        }
+        self.out = format!("ok n={} leaks={}", self.input.len(), if self.leaks.is_empty() { "-".to_string() } else { self.leaks.iter().map(|x| x.to_string()).collect::<Vec<_>>().join(",") });
     }
 }
 
@@ -183,11 +205,13 @@ struct AsyncDec<'a> { proto: Proto, input: &'a [u8], chunks: Vec<usize>, o: &'a 
 impl<'a> Action for AsyncDec<'a> {
     fn run<T: Message + Debug + 'static>(&mut self, _d: Option<fn() -> T>) {
         let mut rd = Chunked { data: self.input.to_vec(), pos: 0, chunks: self.chunks.clone(), ci: 0, pulled: 0 };
-        let r: Result<T, ThriftException> = match self.proto {
+        let proto = self.proto;
+        let (r, peak, biggest): (Result<T, ThriftException>, usize, usize) = measured(|| match proto {
             Proto::Bin | Proto::UBin => block_on(async { let mut p = TAsyncBinaryProtocol::new(&mut rd); T::decode_async(&mut p).await }),
             Proto::Le => block_on(async { let mut p = TAsyncBinaryLeProtocol::new(&mut rd); T::decode_async(&mut p).await }),
             Proto::Cmp => block_on(async { let mut p = TAsyncCompactProtocol::new(&mut rd); T::decode_async(&mut p).await }),
-        };
+        });
+        if peak > alloc_bound(self.input.len()) { self.o.fail("C09", format!("emitted async decoder under {}: peak allocation {} bytes (largest request {}) on {} input bytes", proto.name(), peak, biggest, self.input.len())); }
         let (sr, srem) = decode_with::<T>(self.proto, self.input);
         // C12: same outcome as the in-memory decoder, never reads past the message
         match (&r, &sr) {
@@ -198,7 +222,9 @@ impl<'a> Action for AsyncDec<'a> {
             (Err(_), Err(_)) => {}
         }
         self.out = match r {
-            Err(e) => err_class(&e).to_string(),
+            // the async skipper has no container-size check to fail on first, so it may report the depth limit where the
+            // in-memory reader reports a size error: both are errors, the class is not compared
+            Err(e) => { let c = err_class(&e); if c == "depth" { "err".to_string() } else { c.to_string() } }
             Ok(v) => match encode_with(Proto::Bin, &v) {
                 Err(_) => "err-encode".into(),
                 Ok((b, _)) => { let r = read_script(Proto::Bin, &b, &[ReadStep::Read(TT::Struct)]); let shown = if r.err.is_none() && r.rem == 0 { Val::of_sexp(&Sexp::parse_line(&r.items[0]).unwrap()[0]).map(|v| canon(&v).sexp()).unwrap_or_default() } else { format!("raw:{}", hex(&b)) }; format!("ok {} pulled={}", shown, rd.pulled) }
@@ -212,12 +238,24 @@ fn exec(verb: &str, items: &[Sexp], o: &mut Oracle) -> Option<String> {
     let bad = || Some("bad-request".to_string());
     match verb {
         "doc" => Some("ok".into()),
-        "gd" | "gb" | "gl" | "ga" => {
+        "gbs" => {
+            // gbs <doc> <type> <proto> <stack-KiB> <hex>: decode on a thread with a small stack (C09: no stack exhaustion)
+            let (Some(doc), Some(ty), Some(proto), Some(kib), Some(input)) = (a(1), a(2), a(3).and_then(Proto::of), a(4).and_then(|s| s.parse::<usize>().ok()), a(5).and_then(unhex)) else { return bad() };
+            let (doc, ty) = (doc.to_string(), ty.to_string());
+            let h = std::thread::Builder::new().stack_size(kib << 10).spawn(move || {
+                let mut o2 = Oracle { fails: vec![] };
+                let mut act = Recode { proto, input: &input, o: &mut o2, out: String::new(), keep: doc.ends_with('k'), rt: true };
+                if !dispatch(&doc, &ty, &mut act) { return "unknown-type".to_string(); }
+                act.out
+            }).unwrap();
+            match h.join() { Ok(s) => Some(s), Err(_) => { o.fail("PANIC", "decode panicked on a small stack".into()); Some("panic".into()) } }
+        }
+        "gd" | "gb" | "gl" | "ga" | "gab" => {
             let (Some(doc), Some(ty), Some(proto)) = (a(1), a(2), a(3).and_then(Proto::of)) else { return bad() };
             let mut idx = 4;
             let mut chunks = vec![];
-            if verb == "ga" { let Some(c) = a(4) else { return bad() }; chunks = if c == "-" { vec![] } else { c.split(',').filter_map(|x| x.parse().ok()).collect() }; idx = 5; }
-            let input: Vec<u8> = if verb == "gb" || verb == "gl" { let Some(h) = a(idx).and_then(unhex) else { return bad() }; h }
+            if verb == "ga" || verb == "gab" { let Some(c) = a(4) else { return bad() }; chunks = if c == "-" { vec![] } else { c.split(',').filter_map(|x| x.parse().ok()).collect() }; idx = 5; }
+            let input: Vec<u8> = if verb == "gb" || verb == "gab" { let Some(h) = a(idx).and_then(unhex) else { return bad() }; h }
             else {
                 let Some(v) = items.get(idx).and_then(Val::of_sexp) else { return bad() };
                 match write_all(proto, BufK::Bm, StrApi::Bytes, &[v]) { Ok(w) => w.bytes, Err(_) => return Some("err-input".into()) }
@@ -225,15 +263,17 @@ fn exec(verb: &str, items: &[Sexp], o: &mut Oracle) -> Option<String> {
             let expect = items.iter().position(|x| x.atom() == Some("=>")).and_then(|i| items.get(i + 1));
             let out;
             match verb {
-                "gl" => { let mut act = Leak { proto, input: &input, out: String::new() }; if !dispatch(doc, ty, &mut act) { return Some("unknown-type".into()); } out = act.out;
-                          if out.starts_with("err") && !out.ends_with("leaked=0") { o.fail("C19", format!("failed decode of {}::{} leaves heap bytes: {}", doc, ty, out)); } }
-                "ga" => { let mut act = AsyncDec { proto, input: &input, chunks, o, out: String::new() }; if !dispatch(doc, ty, &mut act) { return Some("unknown-type".into()); } out = act.out; }
-                _ => { let mut act = Recode { proto, input: &input, o, out: String::new() }; if !dispatch(doc, ty, &mut act) { return Some("unknown-type".into()); } out = act.out; }
+                "gl" => { let mut act = Leak { proto, input: &input, out: String::new(), leaks: vec![], accepted_prefix: None }; if !dispatch(doc, ty, &mut act) { return Some("unknown-type".into()); } out = act.out;
+                          if !act.leaks.is_empty() { o.fail("C19", format!("failed decode of {}::{} under {} leaves heap memory or buffer references behind when the input is cut at {:?}", doc, ty, proto.name(), act.leaks)); }
+                          if let Some(c) = act.accepted_prefix { o.fail("C09", format!("strict prefix of length {} of a valid {}::{} encoding is accepted under {}", c, doc, ty, proto.name())); } }
+                "ga" | "gab" => { let mut act = AsyncDec { proto, input: &input, chunks, o, out: String::new() }; if !dispatch(doc, ty, &mut act) { return Some("unknown-type".into()); } out = act.out; }
+                _ => { let rt = !items.iter().any(|x| x.atom() == Some("nort")); let mut act = Recode { proto, input: &input, o, out: String::new(), keep: doc.ends_with('k'), rt }; if !dispatch(doc, ty, &mut act) { return Some("unknown-type".into()); } out = act.out; }
             }
             if let Some(e) = expect {
                 let want = match e { Sexp::Atom(s) => s.clone(), l => { let mut s = String::new(); fn p(x: &Sexp, s: &mut String) { match x { Sexp::Atom(a) => s.push_str(a), Sexp::List(l) => { s.push('('); for (i, y) in l.iter().enumerate() { if i > 0 { s.push(' '); } p(y, s); } s.push(')'); } } } p(l, &mut s); s } };
                 let got = if out.starts_with("ok ") { out[3..].rsplit_once(' ').map(|x| x.0.to_string()).unwrap_or_default() } else { out.clone() };
-                if got != want { o.fail(items.iter().rev().next().and_then(|x| x.atom()).filter(|t| t.starts_with('C')).unwrap_or("C02"), format!("emitted {}::{} under {}: got {} want {}", doc, ty, proto.name(), got, want)); }
+                let same = got == want || (want == "err" && (got == "err" || got == "depth"));
+                if !same { o.fail(items.iter().rev().filter_map(|x| x.atom()).find(|t| t.starts_with('C') && t.len() == 3).unwrap_or("C02"), format!("emitted {}::{} under {}: got {} want {}", doc, ty, proto.name(), got, want)); }
             }
             Some(out)
         }
